@@ -2411,7 +2411,7 @@ func c10CutsRun(ctx *core.Ctx, cs *c10CutCase, reqs *[]string, pend *[]func(stri
 // ---------------------------------------------------------------- entry point
 
 func RunC10(ctx *core.Ctx) {
-	ctx.SetRule("L1: sort.Sort on GenericBuffer[T], Buffer, RowBuffer[T] and SortingWriter[T] Close, each through its typed Write and through its []Row entry point (WriteRows; the rows are lent from producer memory that is reused and overwritten after every call) over five struct schemas (required / optional pointer / optional zero-is-null / nested optional group / repeated leaves, also repeated leaves placed before the required key columns; required and optional leaves below two optional groups, below a repeated group and below a required group), 0-3 sorting columns x asc/desc x nulls first/last, null and value runs of length 1,2,3,7,8,9,15,16,17,64,65, small alphabets (duplicates), write batches around 8 and 64, explicit Flush() calls between the writes of a sorting writer, optional second phase (write more, sort again); a directed stream of sorting writers whose first sorting column is repeated (sort runs of 1-3 rows, short lists sharing prefixes); Write/WriteRows/Flush/Close histories on a sorting writer with sort runs of 1..64 rows, the writer reused through Reset (after Close, or abandoning the rows written so far) for a second history; L2: broadcastRangeInt32 for lengths 0..40,63..65,127..129,255,257 x 17 bases, and write/Swap/Less/Page histories on one optional column against the Lean OptCol mirror (flat, and as required / optional leaf of an optional group with nulls at every level below the maximum) and on one repeated column against the RepCol mirror; what Buffer.configure sets up (buffer kind, reversed wrapper, null ordering function) for every leaf of the static schemas and of random schemas nested up to depth 4 against the Lean mirror `configure`; the rows per temporary row group of the sorting writer against the Lean mirror of the writeRows loop. Distinct by canonical input; non-trivial = some nullable sorting column holds both nulls and values (L1), run length >= 8 not a multiple of 8 (kernel), more than 3 ops (history), a required leaf with inherited levels (configure), more than 2 calls (sorting writer history)")
+	ctx.SetRule("L1: sort.Sort on GenericBuffer[T], Buffer, RowBuffer[T] and SortingWriter[T] Close, each through its typed Write and through its []Row entry point (WriteRows; the rows are lent from producer memory that is reused and overwritten after every call) over five struct schemas (required / optional pointer / optional zero-is-null / nested optional group / repeated leaves, also repeated leaves placed before the required key columns; required and optional leaves below two optional groups, below a repeated group and below a required group), 0-3 sorting columns x asc/desc x nulls first/last, null and value runs of length 1,2,3,7,8,9,15,16,17,64,65, small alphabets (duplicates; the EMPTY string / empty non-nil []byte among the first three values of every byte-array pool), write batches around 8 and 64, explicit Flush() calls between the writes of a sorting writer, optional second phase (write more, sort again); a directed stream of sorting writers whose first sorting column is repeated (sort runs of 1-3 rows, short lists sharing prefixes); Write/WriteRows/Flush/Close histories on a sorting writer with sort runs of 1..64 rows, the writer reused through Reset (after Close, or abandoning the rows written so far) for a second history; L2: broadcastRangeInt32 for lengths 0..40,63..65,127..129,255,257 x 17 bases, and write/Swap/Less/Page histories on one optional column against the Lean OptCol mirror (flat, and as required / optional leaf of an optional group with nulls at every level below the maximum) and on one repeated column (required elements, and nullable elements with max definition level 2) against the RepCol mirror; write (typed / []Row / ColumnBuffer.WriteValues) / Swap / Page histories on a required string column against the BACol mirror of byteArrayColumnBuffer (values \"\", a, b, ab, abc, 00; swaps mostly between neighbours); what Buffer.configure sets up (buffer kind, reversed wrapper, null ordering function) for every leaf of the static schemas and of random schemas nested up to depth 4 against the Lean mirror `configure`; the rows per temporary row group of the sorting writer against the Lean mirror of the writeRows loop. Distinct by canonical input; non-trivial = some nullable sorting column holds both nulls and values (L1), run length >= 8 not a multiple of 8 (kernel), more than 3 ops (history; byte array history: and an empty value next to a non-empty one), a required leaf with inherited levels (configure), more than 2 calls (sorting writer history)")
 	d := ctx.Driver()
 	if ctx.Replay != "" {
 		c10Guard(ctx, "panic-in-replay", "replaying a recorded case panicked", func() map[string]any { return map[string]any{"file": ctx.Replay} },
@@ -2443,7 +2443,7 @@ func RunC10(ctx *core.Ctx) {
 		var pend []func(string)
 		// … on a required / optional leaf of an optional group (null at levels below the maximum)
 		rn := ctx.Rand("c10-nested-history")
-		for i, n := 0, ctx.Scale(1500, 9000); i < n; i++ {
+		for i, n := 0, ctx.Scale(1500, 6000); i < n; i++ {
 			c10Guard(ctx, "panic-in-optional-buffer-history", "a write/Swap/Less/Page history panicked outside its guarded operations", nil,
 				func() { c10HistoryNested(ctx, rn, &reqs, &pend) })
 			if len(reqs) >= 2000 {
@@ -2453,7 +2453,7 @@ func RunC10(ctx *core.Ctx) {
 		c06Flush(ctx, d2, &reqs, &pend)
 		// … write/Swap/Page histories on a byte array column buffer against the BACol mirror
 		rb := ctx.Rand("c10-bytearray-history")
-		for i, n := 0, ctx.Scale(3000, 15000); i < n; i++ {
+		for i, n := 0, ctx.Scale(3000, 10000); i < n; i++ {
 			c10Guard(ctx, "panic-in-bytearray-buffer-history", "a write/Swap/Page history on a byte array column buffer panicked", nil,
 				func() { c10BAHistory(ctx, rb, &reqs, &pend) })
 			if len(reqs) >= 2000 {
@@ -2465,7 +2465,7 @@ func RunC10(ctx *core.Ctx) {
 		rc := ctx.Rand("c10-configure")
 		static := []*parquet.Schema{parquet.SchemaOf(new(c10A)), parquet.SchemaOf(new(c10B)), parquet.SchemaOf(new(c10C)),
 			parquet.SchemaOf(new(c10D)), parquet.SchemaOf(new(c10E)), parquet.SchemaOf(new(c10Nest1)), parquet.SchemaOf(new(c10Nest2))}
-		for i, n := 0, ctx.Scale(2000, 12000); i < n; i++ {
+		for i, n := 0, ctx.Scale(2000, 8000); i < n; i++ {
 			c10Guard(ctx, "panic-in-buffer-configure", "NewBuffer on a nested schema with sorting columns panicked", nil, func() {
 				var schema *parquet.Schema
 				if i < 40*len(static) {
@@ -2486,7 +2486,7 @@ func RunC10(ctx *core.Ctx) {
 		c06Flush(ctx, d2, &reqs, &pend)
 		// … and the run cuts of the sorting writer over Write/WriteRows/Flush histories
 		rw := ctx.Rand("c10-sorting-writer-history")
-		for i, n := 0, ctx.Scale(1000, 6000); i < n; i++ {
+		for i, n := 0, ctx.Scale(1000, 4000); i < n; i++ {
 			c10Guard(ctx, "panic-in-sorting-writer-history", "a Write/WriteRows/Flush/Close history on a sorting writer panicked", nil,
 				func() { c10Cuts(ctx, rw, &reqs, &pend) })
 			if len(reqs) >= 1000 {
@@ -2504,7 +2504,7 @@ func RunC10(ctx *core.Ctx) {
 		r := ctx.Rand("c10-history")
 		var reqs []string
 		var pend []func(string)
-		for i, n := 0, ctx.Scale(6000, 60000); i < n; i++ {
+		for i, n := 0, ctx.Scale(6000, 24000); i < n; i++ {
 			c10Guard(ctx, "panic-in-optional-buffer-history", "a write/Swap/Less/Page history panicked outside its guarded operations", nil,
 				func() { c10History(ctx, r, &reqs, &pend) })
 			if len(reqs) >= 2000 {
@@ -2514,7 +2514,7 @@ func RunC10(ctx *core.Ctx) {
 		c06Flush(ctx, d, &reqs, &pend)
 		// … and on a repeated column against the RepCol mirror
 		rr := ctx.Rand("c10-rep-history")
-		for i, n := 0, ctx.Scale(3000, 30000); i < n; i++ {
+		for i, n := 0, ctx.Scale(3000, 12000); i < n; i++ {
 			c10Guard(ctx, "panic-in-repeated-buffer-history", "a write/Swap/Less/Page history on a repeated column panicked",
 				nil, func() { c10RepHistory(ctx, rr, &reqs, &pend) })
 			if len(reqs) >= 2000 {
@@ -2525,7 +2525,7 @@ func RunC10(ctx *core.Ctx) {
 	}()
 	// 3. L1 cases, in parallel per worker (each with its own PRNG stream)
 	workers := 16
-	per := ctx.Scale(8000, 120000) / workers
+	per := ctx.Scale(8000, 48000) / workers
 	var wg sync.WaitGroup
 	for w := 0; w < workers; w++ {
 		wg.Add(1)
@@ -2550,7 +2550,7 @@ func RunC10(ctx *core.Ctx) {
 	// temporary row groups must order lists element-wise, a proper prefix first, in both directions
 	{
 		r := ctx.Rand("c10-sortw-repeated-key")
-		for i, n := 0, ctx.Scale(800, 8000); i < n; i++ {
+		for i, n := 0, ctx.Scale(800, 3200); i < n; i++ {
 			var ti int
 			for ti = r.Intn(len(c10Types)); c10Types[ti].nrep == 0; ti = r.Intn(len(c10Types)) {
 			}
